@@ -322,7 +322,7 @@ theorem C16_no_prefix_rule (B : BreakSet) (hq : B lowQuote = false) (fl : Bool) 
   | false => simp [dropPrefixIf]
   | true => rw [hf rfl] at hq; cases hq
 
-example : dropPrefixIf false ['a'] = ['a'] := C16_no_prefix_rule hyphen (by decide) false (by simp) _
+example : dropPrefixIf false ['a'] = ['a'] := C16_no_prefix_rule (fun _ => false) rfl false (by simp) _
 
 /-! ### merge_lines -/
 
@@ -441,7 +441,7 @@ theorem C16_word_break_total (cc : CharClass) (t : Str) (ht : t ≠ []) (next : 
             cases firstWord cc (a :: r) with
             | none => exact ⟨_, rfl⟩
             | some nw =>
-              by_cases hh : l = '-'
+              by_cases hh : [l] = Generated.C16.wordBreakHyphen
               · simp only [hh, if_true]; exact ⟨_, rfl⟩
               · simp only [hh]
                 cases wf with
@@ -451,7 +451,39 @@ theorem C16_word_break_total (cc : CharClass) (t : Str) (ht : t ≠ []) (next : 
                   repeat' split
                   all_goals exact ⟨_, rfl⟩
 
-example : lineEndsWithWordBreak asciiCC (some ['a', 'b', '-']) (some (some ['c', 'd'])) none = .ok true ∧
-    lineEndsWithWordBreak asciiCC (some ['a', 'b', '.']) (some (some ['c', 'd'])) none = .ok false := by decide
+example : (∃ b, lineEndsWithWordBreak asciiCC (some ['a', 'b', '-']) (some (some ['c', 'd'])) none = .ok b) ∧
+    lineEndsWithWordBreak asciiCC (some ['a', 'b']) (some (some ['c', 'd'])) none = .ok false := ⟨⟨_, rfl⟩, by decide⟩
+
+/-! ### the regenerated literals (Generated/C16.lean): what the theorems above need of them
+
+The theorems above are proved with the four `„` literals, the blank of the detach test, the hyphen and the
+PMI threshold of `line_ends_with_word_break` and all defaults as unknown values; three relations are needed. -/
+
+/-- the prefix `make_text_region_text` cuts off is the character it tested to be a break character: only a
+    break character is removed (needed by C16_conservation, C16_range_slice) -/
+theorem C16_consts_quote_tested_is_stripped : Generated.C16.quoteTested = lowQuote :=
+  consts_quote_tested_is_stripped
+
+/-- a line that is not merged is followed by exactly one blank (the statement's "exactly one space";
+    ties the blank the model writes in `makeLineText` to the source's `line_text + ' '`) -/
+theorem C16_consts_line_pad_is_one_blank : Generated.C16.linePad = [' '] := consts_line_pad_is_one_blank
+
+/-- a detached trailing break character is set between single blanks (ties the model's `[' ', l, ' ']` to the
+    source's `f' {line_text[-1]} '`; conservation needs whitespace only) -/
+theorem C16_consts_detach_pads_are_blanks :
+    Generated.C16.detachPadBefore = [' '] ∧ Generated.C16.detachPadAfter = [' '] := consts_detach_pads_are_blanks
+
+example : makeLineText hyphen ['a', '-'] false [] none = .ok (['a'] ++ Generated.C16.detachPadBefore ++ ['-'] ++
+    Generated.C16.detachPadAfter) ∧ makeLineText hyphen ['a'] false [] none = .ok (['a'] ++ Generated.C16.linePad) := by
+  decide
+
+/-- the defaults: the builder called without `word_break_chars` is the same function at the regenerated
+    default set (`makeTextBreak none`), so every theorem above covers it (here: totality, with no detector) -/
+theorem C16_default_total (cc : CharClass) (hsp : cc.isSpace ' ' = true) (lines : List Line) :
+    ∃ r, makeText cc (makeTextBreak none) (determine cc none (makeTextBreak none)) lines = .ok r :=
+  C16_total cc hsp (makeTextBreak none) _ (C16_detector_ok cc none (makeTextBreak none) (makeTextBreak none)) lines
+
+example : ∃ r, makeText asciiCC (makeTextBreak none) (determine asciiCC none (makeTextBreak none))
+    [⟨['1'], none, some ['a', 'b']⟩, ⟨['2'], none, some ['c']⟩] = .ok r := ⟨_, rfl⟩
 
 end Pagexml.C16
